@@ -353,9 +353,17 @@ class Machine:
         self.handlers = ()     # tuple of (handler, k, winders), outermost first
         self.globals = Env()
         self.struct_types = {}
+        self.booting = True
         self.stats = {"closure_calls": 0, "cont_invocations": 0, "cont_reentries": 0, "set": 0, "errors_raised": 0,
                       "handlers_run": 0, "winds": 0}
         install_prims(self)
+        # higher-order library procedures are ordinary (re-entrant) Scheme code, applied left to right
+        for f in parse(HOF_SOURCE):
+            self.eval_top(f)
+        self.booting = False
+        self.steps = 0
+        for k in self.stats:
+            self.stats[k] = 0
 
     # -- top level ------------------------------------------------------------------------------
     def run_program(self, forms):
@@ -734,7 +742,7 @@ def sf_unless(m, x, env, k):
     return ("eval", [Sym("if"), x[1], VOID_EXPR, [Sym("begin")] + x[2:]], env, k)
 
 
-VOID_EXPR = [Sym("void")]
+VOID_EXPR = Sym("void")
 
 
 def sf_case(m, x, env, k):
@@ -944,7 +952,7 @@ def install_prims(m):
     defprim("number?", is_number, 1)
     defprim("integer?", lambda a: isinstance(a, int) and not isinstance(a, bool), 1)
     defprim("not", lambda a: a is False, 1)
-    defprim("void", lambda *a: VOID, 0, None)
+    g[Sym("void")] = [VOID]     # pinned: in Steel `void` is the value itself, (void) is an error
 
     def eqp(a, b):
         if isinstance(a, (Sym, bool)) or a is NIL or a is VOID:
@@ -1062,50 +1070,6 @@ def install_prims(m):
     def proc(f):
         need(isinstance(f, (Closure, Prim, Cont)), "expected a procedure")
         return f
-
-    def hmap(f, *ls):
-        proc(f)
-        cols = [plist(l) for l in ls]
-        need(len(set(len(c) for c in cols)) == 1, "map: lists of different length")
-        out = []
-        for args in zip(*cols):
-            v = yield ("call", f, list(args))
-            out.append(v)
-        return py_to_list(out)
-    defprim("map", hmap, 2, None)
-
-    def for_each(f, l):
-        proc(f)
-        for x in plist(l):
-            yield ("call", f, [x])
-        return VOID
-    defprim("for-each", for_each, 2)
-
-    def hfilter(f, l):
-        proc(f)
-        out = []
-        for x in plist(l):
-            v = yield ("call", f, [x])
-            if v is not False:
-                out.append(x)
-        return py_to_list(out)
-    defprim("filter", hfilter, 2)
-
-    def foldl(f, init, l):
-        proc(f)
-        acc = init
-        for x in plist(l):
-            acc = yield ("call", f, [x, acc])
-        return acc
-    defprim("foldl", foldl, 3)
-
-    def foldr(f, init, l):
-        proc(f)
-        acc = init
-        for x in reversed(plist(l)):
-            acc = yield ("call", f, [x, acc])
-        return acc
-    defprim("foldr", foldr, 3)
 
     def happly(f, *rest):
         proc(f)
@@ -1460,3 +1424,21 @@ def parse(text):
     while pos[0] < len(toks):
         forms.append(read())
     return forms
+
+
+HOF_SOURCE = """
+(define (map f l . more)
+  (if (null? more)
+      (let loop ((l l) (acc (quote ())))
+        (if (null? l) (reverse acc) (let ((v (f (car l)))) (loop (cdr l) (cons v acc)))))
+      (let loop ((l l) (m (car more)) (acc (quote ())))
+        (cond ((and (null? l) (null? m)) (reverse acc))
+              ((or (null? l) (null? m)) (error "map: lists of different length"))
+              (else (let ((v (f (car l) (car m)))) (loop (cdr l) (cdr m) (cons v acc))))))))
+(define (for-each f l) (if (null? l) (void) (begin (f (car l)) (for-each f (cdr l)))))
+(define (filter f l)
+  (let loop ((l l) (acc (quote ())))
+    (if (null? l) (reverse acc) (if (f (car l)) (loop (cdr l) (cons (car l) acc)) (loop (cdr l) acc)))))
+(define (foldl f init l) (if (null? l) init (foldl f (f (car l) init) (cdr l))))
+(define (foldr f init l) (if (null? l) init (f (car l) (foldr f init (cdr l)))))
+"""
